@@ -10,7 +10,7 @@ from vlib.core import NCPU, REPO, ROOT
 
 MODEL_CAP_QUICK, MODEL_CAP_THOROUGH = 2048, 6144   # bytes: above this only no-panic + span oracle (no model comparison)
 LEXC = {0: "agree", 1: "corr-diff", 2: "lex-panic", 3: "lex-span-bad", 4: "model-panic-or-fuel", 5: "length-mismatch", 9: "oracle-only"}
-PARC = {0: "ok", 2: "parse-panic", 3: "parse-span-bad", 4: "parse-foreign-span-bad"}
+PARC = {0: "ok", 2: "parse-panic", 3: "parse-span-bad", 4: "parse-foreign-span-bad", 5: "parse-span-not-derived"}
 
 VOCAB = ["fn", "let", "struct", "enum", "impl", "use", "mod", "pub", "script", ";", "contract", "library", "abi", "storage", "match", "if",
          "else", "while", "for", "in", "return", "true", "false", "self", "ref", "mut", "const", "where", "as", "asm", "configurable",
@@ -252,6 +252,7 @@ def run(ctx):
     # ---------------- decision
     hl, hp = {}, {}
     corr = []
+    ties = []
     reported = set()
     for (origin, b), r, (lc, pc) in zip(cases, rows, codes):
         hl[LEXC[lc]] = hl.get(LEXC[lc], 0) + 1
@@ -271,11 +272,17 @@ def run(ctx):
             ctx.violation(key, {"input_hex": mb.hex(), "input_text": mb.decode("utf-8", "replace")[:400], "origin": origin,
                                 "original_input_hex": b.hex() if len(b) < 4000 else None, "lex": r[3][:600], "parse": r[4][:600]},
                           "%s: %s on input %r (from %s)" % (who, what, mb.decode("utf-8", "replace")[:80], origin))
+        if pc == 5 and len(ties) < 5:
+            ties.append((key_of(b), {"input_hex": b.hex()[:4000], "origin": origin, "lex": r[3][:1500], "parse": r[4][:600]}))
         if lc in (1, 4, 5):
             corr.append((key_of(b), {"input_hex": b.hex()[:4000], "origin": origin, "impl_lex": r[3][:1500], "code": LEXC[lc]}))
     for key, rep in corr[:5]:
         ctx.violation(key, dict(rep, correspondence="C16.corr/lex_stream_exact"),
                       "lexer model and lex_commented differ (%s) although every reported span is in bounds; theorems C16_lex_no_panic / C16_lex_spans_in_bounds no longer tied to the code" % rep["code"],
+                      no_input=True)
+    for key, rep in ties:
+        ctx.violation(key, dict(rep, correspondence="C16.tie/parser_spans_derived"),
+                      "a parser diagnostic span is in bounds but is not built by join/start/end from the token spans, lexer diagnostics and end-of-stream spans of its input: the structural statement C16_judge_parse_accepts about the parser no longer holds",
                       no_input=True)
     if not ok:
         ctx.violation("proof", {"theorems": [o for o in ctx.obligations if not o[1]], "log": out[-2000:]}, "C16 proofs do not check", no_input=True)
@@ -287,7 +294,7 @@ def run(ctx):
         "trusted_base": ["Coq 8.16.1 kernel + vm_compute", "harness/src/bin/c16.rs (flattening of the token tree, printing, catch_unwind)",
                          "props/c16.py (input generation, sharding; the verdict per case is computed in Coq)",
                          "Unicode tables (char::is_whitespace, unicode-xid) are parameters of the model: theorems hold for every table; per case the judge uses the class bits the real functions report",
-                         "the parser is NOT modelled: parse_file is only run (no panic) and its diagnostics' spans checked by the proved oracle"],
+                         "the parser is NOT modelled: parse_file is only run (no panic); its diagnostics' spans are checked by the proved in-bounds oracle and by the proved `derived` decision (each is join/start/end of token spans, lexer diagnostics or Parser::emit_error end-of-stream spans of that input)"],
         "evaluations": len(cases), "distinct_nontrivial": distinct,
         "rule": "distinct by byte content; non-trivial = at least 8 bytes. Inputs: regression corpus, every .sw file under /repo, mutants of random windows of those files (byte/token insertion+deletion, splicing, unicode insertion incl. multi-byte chars at the end of unclosed comments/strings/chars/escapes, unbalanced delimiters, truncation) and token soups",
         "samples": [{"origin": o, "input": b.decode("utf-8", "replace")[:120], "lex": LEXC[c[0]], "parse": PARC[c[1]]}
